@@ -25,6 +25,7 @@ type Case struct {
 	Args  []gen.Val `json:"args,omitempty"`
 	Lower bool      `json:"lower,omitempty"` // write and / or / not in lower case
 	Title bool      `json:"title,omitempty"` // write function names with an initial capital (Abs, Upper): names are case-insensitive
+	Names bool      `json:"names,omitempty"` // columns are called order_id, is_ok, island, notes, android, nothing_n, inner_m (names that contain keywords) instead of a, b, s, u, f, n, m
 	Excl  []string  `json:"excl,omitempty"`  // open-finding shapes the generator steered this case away from (shape@ctx: context left out, shape~: rewritten)
 }
 
